@@ -46,7 +46,8 @@ def loop_shapes(fn):
     out = []
     for h in sorted(cfg.loops, key=lambda h_: cfg.loop_no[h_]):
         blk = cfg.blocks[h]
-        rec = {'kind': blk.get('comment', ''), 'ri': None, 'iv': None, 'ivid': None, 'riid': None}
+        rec = {'kind': blk.get('comment', ''), 'ri': None, 'iv': None, 'ivid': None, 'riid': None, 'hdr': h,
+               'ops': _ops_hist(ins for b in cfg.loops[h] for ins in cfg.blocks[b]['instrs'])}
         if blk.get('comment') == 'rangeindex.loop' and blk['instrs'] and blk['instrs'][0]['op'] == 'UnOp':
             rid = blk['instrs'][0].get('x')
             rec['ri'] = ri_ord.get(rid)
@@ -90,31 +91,91 @@ def loop_shapes(fn):
     return out
 
 
+def _ops_hist(instrs):
+    h = {}
+    for ins in instrs:
+        k = ins['op']
+        if k in ('Call', 'Go', 'Defer'):
+            c = ins.get('call') or {}
+            tgt = str(c.get('callee') or c.get('method') or c.get('mode') or '')
+            k += ':' + ('<lit>' if '$' in tgt else tgt)
+        elif k in ('BinOp', 'UnOp'):
+            k += ':' + str(ins.get('tok', ''))
+        elif k in ('FieldAddr', 'Field'):
+            k += ':' + str(ins.get('field', ''))
+        h[k] = h.get(k, 0) + 1
+    return h
+
+
+def _dice(ha, hb):
+    inter = sum(min(v, hb.get(k, 0)) for k, v in ha.items())
+    tot = sum(ha.values()) + sum(hb.values())
+    return 2.0 * inter / tot if tot else 1.0
+
+
+def _align(n_, m_, sim):
+    """order-preserving alignment of 0..n_-1 with 0..m_-1 maximising the summed similarity; {j: i}"""
+    best = [[0.0] * (m_ + 1) for _ in range(n_ + 1)]
+    for i in range(n_ - 1, -1, -1):
+        for j in range(m_ - 1, -1, -1):
+            s_ = sim(i, j)
+            v = max(best[i + 1][j], best[i][j + 1])
+            if s_ > 0 and best[i + 1][j + 1] + s_ > v:
+                v = best[i + 1][j + 1] + s_
+            best[i][j] = v
+    mapping = {}
+    i = j = 0
+    while i < n_ and j < m_:
+        s_ = sim(i, j)
+        if s_ > 0 and abs(best[i][j] - (best[i + 1][j + 1] + s_)) < 1e-9:
+            mapping[j] = i
+            i += 1
+            j += 1
+        elif best[i + 1][j] >= best[i][j + 1]:
+            i += 1
+        else:
+            j += 1
+    return mapping
+
+
+def loop_alignment(fn):
+    """{header block: ordinal the loop had in the baseline tree} when the function gained or lost loops since the
+    contracts were written (`loop k:` clauses are keyed by source-order ordinal); None when the count is unchanged.
+    Loops are matched, order-preserving, by the similarity of what their bodies do; a loop without a counterpart gets
+    an ordinal above the baseline's (no clause exists for it)."""
+    base = load().get(fn['name'])
+    if not base or not base.get('loops') or any('ops' not in b for b in base['loops']):
+        return None
+    bl = base['loops']
+    cur = loop_shapes(fn)
+    if len(bl) == len(cur):
+        return None
+
+    def sim(i, j):
+        d = _dice(bl[i]['ops'], cur[j]['ops'])
+        return d if d >= 0.5 else 0.0
+    m = _align(len(bl), len(cur), sim)
+    out = {}
+    nxt = len(bl)
+    for j, c in enumerate(cur):
+        if j in m:
+            out[c['hdr']] = m[j] + 1
+        else:
+            nxt += 1
+            out[c['hdr']] = nxt
+    return out
+
+
 def closure_fp(fn):
     """fingerprint of a function literal: its signature by types, and a histogram of what its body does"""
-    h = {}
-    for blk in fn['blocks']:
-        for ins in blk['instrs']:
-            k = ins['op']
-            if k in ('Call', 'Go', 'Defer'):
-                c = ins.get('call') or {}
-                tgt = str(c.get('callee') or c.get('method') or c.get('mode') or '')
-                k += ':' + ('<lit>' if '$' in tgt else tgt)
-            elif k in ('BinOp', 'UnOp'):
-                k += ':' + str(ins.get('tok', ''))
-            elif k in ('FieldAddr', 'Field'):
-                k += ':' + str(ins.get('field', ''))
-            h[k] = h.get(k, 0) + 1
+    h = _ops_hist(ins for blk in fn['blocks'] for ins in blk['instrs'])
     return {'sig': '(%s)(%s)' % (','.join(p['type'] for p in fn['params']), ','.join(r['type'] for r in fn['results'])), 'ops': h}
 
 
 def _similar(a, b):
     if a['sig'] != b['sig']:
         return 0.0
-    ha, hb = a['ops'], b['ops']
-    inter = sum(min(v, hb.get(k, 0)) for k, v in ha.items())
-    tot = sum(ha.values()) + sum(hb.values())
-    return 0.5 + (2.0 * inter / tot if tot else 1.0)
+    return 0.5 + _dice(a['ops'], b['ops'])
 
 
 def _children(funcs, parent):
@@ -160,26 +221,8 @@ def closure_renames(funcs):
             if same_shape:
                 mapping = {i: b[i][0] for i in range(len(cur))}
             else:
-                n_, m_ = len(b), len(cur)
-                best = [[0.0] * (m_ + 1) for _ in range(n_ + 1)]
-                for i in range(n_ - 1, -1, -1):
-                    for j in range(m_ - 1, -1, -1):
-                        s_ = _similar(b[i][1], cf[j])
-                        v = max(best[i + 1][j], best[i][j + 1])
-                        if s_ > 0 and best[i + 1][j + 1] + s_ > v:
-                            v = best[i + 1][j + 1] + s_
-                        best[i][j] = v
-                i = j = 0
-                while i < n_ and j < m_:
-                    s_ = _similar(b[i][1], cf[j])
-                    if s_ > 0 and abs(best[i][j] - (best[i + 1][j + 1] + s_)) < 1e-9:
-                        mapping[j] = b[i][0]
-                        i += 1
-                        j += 1
-                    elif best[i + 1][j] >= best[i][j + 1]:
-                        i += 1
-                    else:
-                        j += 1
+                m = _align(len(b), len(cur), lambda i, j: _similar(b[i][1], cf[j]))
+                mapping = {j: b[i][0] for j, i in m.items()}
         nxt = max([x[0] for x in b] if b else [0]) if b else None
         for j, name in enumerate(cur):
             if b:
